@@ -46,15 +46,23 @@ Definition is_collinear (p1 sh p2 : pt) : bool :=
 
 Definition fsqr (x : float) : float := (x * x)%float.
 
+(* static_cast<double>(int64_t): the hardware conversion for |z| < 2^62, [Z2F] otherwise.
+   Equal to [FloatModel.Z2F] for every z (proofs/PathUtilsFloat.v, [Z2Ff_eq]); it only makes the
+   extracted model fast enough for exhaustive enumeration. *)
+Definition Z2Ff (z : Z) : float :=
+  if (Z.abs z <? 4611686018427387904)%Z then
+    if (0 <=? z)%Z then of_uint63 (Uint63.of_Z z) else (- of_uint63 (Uint63.of_Z (- z)))%float
+  else Z2F z.
+
 (* Sqr<int64_t>(val) = static_cast<double>(val) * static_cast<double>(val) *)
-Definition sqr_i64 (z : Z) : float := fsqr (Z2F z).
+Definition sqr_i64 (z : Z) : float := fsqr (Z2Ff z).
 
 (* PerpendicDistFromLineSqrd<int64_t>(pt, line1, line2) *)
 Definition perp_d2 (p l1 l2 : pt) : float :=
-  let a := Z2F (px p - px l1) in
-  let b := Z2F (py p - py l1) in
-  let c := Z2F (px l2 - px l1) in
-  let d := Z2F (py l2 - py l1) in
+  let a := Z2Ff (px p - px l1) in
+  let b := Z2Ff (py p - py l1) in
+  let c := Z2Ff (px l2 - px l1) in
+  let d := Z2Ff (py l2 - py l1) in
   if (c =? 0)%float && (d =? 0)%float then 0%float
   else (fsqr (a * d - c * b) / (c * c + d * d))%float.
 
@@ -484,7 +492,7 @@ Definition ellipse_params (rx ry : float) (steps : Z) : option (float * Z) :=
   Some (ry, steps).
 
 (* the argument handed to std::sin / std::cos: 2 * PI / steps *)
-Definition ellipse_angle (steps : Z) : float := (2 * PI_DBL / Z2F steps)%float.
+Definition ellipse_angle (steps : Z) : float := (2 * PI_DBL / Z2Ff steps)%float.
 
 (* Ellipse<double>(center, radiusX, radiusY, steps) given si = sin(angle), co = cos(angle) *)
 Definition ellipse_d (cx cy rx ry : float) (steps : Z) (si co : float) : list (float * float) :=
@@ -498,7 +506,7 @@ Definition ellipse_d (cx cy rx ry : float) (steps : Z) (si co : float) : list (f
 (* Ellipse<int64_t>: center.x converts to double, Point64(double,double) rounds with std::round *)
 Definition ellipse_i (c : pt) (rx ry : float) (steps : Z) (si co : float) : path :=
   map (fun q => (F2I64_round (fst q), F2I64_round (snd q)))
-      (ellipse_d (Z2F (px c)) (Z2F (py c)) rx ry steps si co).
+      (ellipse_d (Z2Ff (px c)) (Z2Ff (py c)) rx ry steps si co).
 
 (* ------------------------------------------------------------------ specification predicates (executable) *)
 (* used by the property theorems (proofs/PathUtils*.v) and, extracted, to judge implementation outputs *)
@@ -547,6 +555,16 @@ Definition no_reversal (p : path) : bool :=
 
 Definition no_cyc_collinear (p : path) : bool :=
   forallb (fun t => let '(a, b, c) := t in negb (cross a b c =? 0)%Z) (cyc_triples p).
+
+(* the same for open paths (no wrap-around) *)
+Definition no_lin_dup (p : path) : bool :=
+  forallb (fun e => negb (pt_eqb (fst e) (snd e))) (open_edges p).
+
+Definition no_lin_reversal (p : path) : bool :=
+  forallb (fun t => let '(a, b, c) := t in negb ((cross a b c =? 0)%Z && (dot a b c <? 0)%Z)) (triples_lin p).
+
+Definition no_lin_collinear (p : path) : bool :=
+  forallb (fun t => let '(a, b, c) := t in negb (cross a b c =? 0)%Z) (triples_lin p).
 
 (* the corner vertices of a closed path, in order *)
 Definition corners (p : path) : path :=
